@@ -45,6 +45,19 @@ class CalibrationEnv(gym.Env[ObsType, np.int64], ABC):
 
         self.action_space = Discrete(self._nb_samplers)
 
+    def __getstate__(self) -> dict:
+        """Get the state to be pickled: the queues are transient (and cannot be pickled)."""
+        state = self.__dict__.copy()
+        state["_out_queue"] = None
+        state["_in_queue"] = None
+        return state
+
+    def __setstate__(self, state: dict) -> None:
+        """Restore the pickled state, with fresh queues."""
+        self.__dict__.update(state)
+        self._out_queue = Queue()
+        self._in_queue = Queue()
+
     @abstractmethod
     def reset_state(self) -> ObsType:
         """Get the initial state."""
